@@ -503,6 +503,120 @@ theorem held_entry_not_cleanable {cfg : Cfg} {v0 f0 : Nat} {s : St} (hr : cfg.re
     have : r ≠ 0 := by omega
     simp [canClean, hc, this]
 
+/-! ### deleteObsoleteFiles racing with writers: the listing precedes the live set -/
+
+/-- Over all schedules (directory listed BEFORE the pending / active-version / rollup collections):
+whatever a deleteObsoleteFiles has decided to evict + unlink is, in EVERY later state until it is
+done with it, no output of a writer that has not finished (allocated, created, committing,
+committed-but-still-pending), no table of any registered version — in particular not the table of
+a flush / compaction / rollup commit that landed entirely inside the cleanup — and carries no
+rollup mark. A table that enters the directory after the listing is simply not in the listing. -/
+theorem cleanup_never_targets_concurrent_writer {cfg : Cfg} {v0 f0 : Nat} {s : St} (hr : cfg.recheck = true)
+    (hcl : cfg.cloneLocked = true) (hal : cfg.allocLocked = true) (hfe : cfg.findErrReleases = false)
+    (hpf : cfg.pendFirst = true) (hcc : cfg.closeCAS = true) (hga : cfg.getReaderAtomic = true) (hlf : cfg.listFirst = true)
+    (h : Reachable cfg v0 f0 s) (j : Nat) (hj : j < s.nJob) (hd : delRange (s.job j).pc = true)
+    (f : Nat) (hf : f ∈ (s.job j).todoDel) :
+    (∀ k, k < s.nJob → outPending (s.job k).pc = true → f ∉ outNo (s.job k)) ∧
+    (∀ v ∈ s.active, f ∉ (s.ver v).nos) ∧ f ∉ (s.ver s.cur).rollup ∧ f ∉ s.pending := by
+  have hs := safe_reachable hr hcl hal hfe hpf hcc hga hlf h
+  have hdd := (hs.jobs j hj).deleting hd f hf
+  refine ⟨?_, hdd.1.2.2, hdd.2, hdd.1.2.1⟩
+  intro k hk hp hmem
+  exact hdd.1.2.1 ((hs.jobs k hk).pend hp f hmem)
+
+/-- the variant step list the model runs for the current source IS list-first: the job step after
+`doStart` is the listing, the step after the active-version scan computes the delete list -/
+theorem list_first_steps (cfg : Cfg) (hlf : cfg.listFirst = true) (s : St) (j : Nat) (hj : j < s.nJob) :
+    ((s.job j).pc = .doStart → jstep cfg s j = some (doList s j)) ∧
+    ((s.job j).pc = .doActived → jstep cfg s j = some (doRollup s j)) := by
+  constructor <;> intro hpc <;> simp [jstep, hj, hpc, hlf]
+
+/-! ### several families in one store (shared version-set mutex, file-number and version-id counters, reader cache) -/
+
+/-- what another family can do to this family: nothing but move the two store-level counters on,
+and only while no commit of this family holds the version-set mutex -/
+theorem env_enabled_iff (cfg : Cfg) (s s' : St) (df dv : Nat) :
+    step cfg s (.env df dv) = some s' ↔ s.lock = none ∧ s' = envBump s df dv := by
+  simp only [step]
+  constructor
+  · intro h
+    split at h
+    next hl => cases h; exact ⟨hl, rfl⟩
+    next => cases h
+  · rintro ⟨hl, rfl⟩; simp [hl]
+
+/-- an `env` step leaves every per-family component alone -/
+theorem other_family_step_keeps_family_state (s : St) (df dv : Nat) :
+    let s' := envBump s df dv
+    s'.cur = s.cur ∧ s'.active = s.active ∧ s'.ver = s.ver ∧ s'.ref = s.ref ∧ s'.disk = s.disk ∧
+    s'.pending = s.pending ∧ s'.cref = s.cref ∧ s'.snap = s.snap ∧ s'.content = s.content ∧ s'.hist = s.hist :=
+  ⟨rfl, rfl, rfl, rfl, rfl, rfl, rfl, rfl, rfl, rfl⟩
+
+/-- the numbers another family took are skipped: the next table number this family is handed is
+at least the old counter plus what the others took, hence different from every number of theirs
+(`[s.nextFile, s.nextFile + df)`) — which is why reader-cache entries (keyed by file name alone,
+`tie_cacheKeys`) of different families never alias -/
+theorem alloc_after_other_family_skips_its_numbers (s : St) (df dv j : Nat) (c : Content) (lvl : Nat) :
+    ((jAlloc (envBump s df dv) j c lvl).job j).out.map (·.no) = some (s.nextFile + df) := by
+  simp [jAlloc, allocFile, envBump, St.setJob]
+
+/-- Over all schedules INCLUDING arbitrary activity of the store's other families between any two
+steps: reads through a held snapshot are stable (instance of `snapshot_stable`, whose step
+alphabet contains `env`), stated for a schedule that explicitly interleaves foreign commits. -/
+theorem snapshot_stable_with_other_families {cfg : Cfg} {v0 f0 : Nat} {s s' : St} {acts : List Act}
+    (hr : cfg.recheck = true) (hcl : cfg.cloneLocked = true) (hal : cfg.allocLocked = true)
+    (hfe : cfg.findErrReleases = false) (hpf : cfg.pendFirst = true) (hcc : cfg.closeCAS = true)
+    (hga : cfg.getReaderAtomic = true) (hlf : cfg.listFirst = true)
+    (h : Reachable cfg v0 f0 s) (df dv : Nat) (hrun : run cfg s (.env df dv :: acts) = some s')
+    (i : Nat) (hi : i < s.nSnap) (ho' : (s'.snap i).st = .opened) (k : Nat) :
+    readKey s' i k = readKey s i k :=
+  (snapshot_stable hr hcl hal hfe hpf hcc hga hlf h hrun i hi ho' k).1
+
+/-! ### three committers (flush ‖ compaction ‖ rollup) -/
+
+/-- ANY committer whose swap is done is visible to a reader that starts now: every table its edit
+log added that no installed edit log deletes is listed by the reader's version. -/
+theorem committer_visible {cfg : Cfg} {v0 f0 : Nat} {s s' : St} (hr : cfg.recheck = true)
+    (hcl : cfg.cloneLocked = true) (hal : cfg.allocLocked = true) (hfe : cfg.findErrReleases = false) (hpf : cfg.pendFirst = true)
+    (hcc : cfg.closeCAS = true) (hga : cfg.getReaderAtomic = true) (hlf : cfg.listFirst = true)
+    (h : Reachable cfg v0 f0 s) (hst : step cfg s .acquire = some s')
+    (j : Nat) (hj : j < s.nJob) (hpj : postSwap (s.job j).pc = true) :
+    ∀ m ∈ (s.job j).edit.adds, (∀ e' ∈ s.hist, (m.level, m.no) ∉ e'.dels) →
+      m ∈ (s'.ver (s'.snap s.nSnap).ver).files := by
+  intro m hm hnd
+  obtain ⟨later, earlier, hh, hv⟩ := completed_commits_visible hr hcl hal hfe hpf hcc hga hlf h hst _
+    (commit_recorded hr hcl hal hfe hpf hcc hga hlf h j hj hpj)
+  exact hv m hm (fun e' he' => hnd e' (by rw [hh]; simp [he']))
+
+/-- three committers — a flush `a`, a level-0 compaction `b`, a rollup-done commit `c` — whose swaps
+are all done, in whatever order the version-set mutex serialised them and however their other
+steps interleaved: a reader that starts now sees the flush's table unless an installed compaction
+consumed it, sees the compaction's output likewise, and the reference count of every version
+equals the number of snapshots open on it (the three commits' own snapshots included). -/
+theorem three_committers_all_visible {cfg : Cfg} {v0 f0 : Nat} {s s' : St} (hr : cfg.recheck = true)
+    (hcl : cfg.cloneLocked = true) (hal : cfg.allocLocked = true) (hfe : cfg.findErrReleases = false) (hpf : cfg.pendFirst = true)
+    (hcc : cfg.closeCAS = true) (hga : cfg.getReaderAtomic = true) (hlf : cfg.listFirst = true)
+    (h : Reachable cfg v0 f0 s) (hst : step cfg s .acquire = some s')
+    (a b c : Nat) (ha : a < s.nJob) (hb : b < s.nJob) (hc : c < s.nJob)
+    (hpa : postSwap (s.job a).pc = true) (hpb : postSwap (s.job b).pc = true) (hpc : postSwap (s.job c).pc = true) :
+    (∀ x ∈ [a, b, c], ∀ m ∈ (s.job x).edit.adds, (∀ e' ∈ s.hist, (m.level, m.no) ∉ e'.dels) →
+      m ∈ (s'.ver (s'.snap s.nSnap).ver).files) ∧
+    (∀ x ∈ [a, b, c], (s.job x).edit ∈ s.hist) ∧
+    (∀ v, s.ref v = (cntOpen s.snap v s.nSnap : Int)) := by
+  refine ⟨?_, ?_, (safe_reachable hr hcl hal hfe hpf hcc hga hlf h).ref_count⟩
+  · intro x hx
+    simp only [List.mem_cons, List.mem_nil_iff, or_false] at hx
+    rcases hx with rfl | rfl | rfl
+    · exact committer_visible hr hcl hal hfe hpf hcc hga hlf h hst _ ha hpa
+    · exact committer_visible hr hcl hal hfe hpf hcc hga hlf h hst _ hb hpb
+    · exact committer_visible hr hcl hal hfe hpf hcc hga hlf h hst _ hc hpc
+  · intro x hx
+    simp only [List.mem_cons, List.mem_nil_iff, or_false] at hx
+    rcases hx with rfl | rfl | rfl
+    · exact commit_recorded hr hcl hal hfe hpf hcc hga hlf h _ ha hpa
+    · exact commit_recorded hr hcl hal hfe hpf hcc hga hlf h _ hb hpb
+    · exact commit_recorded hr hcl hal hfe hpf hcc hga hlf h _ hc hpc
+
 /-! ### unfinished writers, double Close, concurrent GetReader -/
 
 /-- Over all schedules (pending mark BEFORE the table file is created): the table of a writer that
@@ -793,6 +907,46 @@ theorem unfinished_writer_table_deleted :
     simp only [Bool.and_eq_true, decide_eq_true_eq, List.contains_eq_mem, Bool.not_eq_true', decide_eq_false_iff_not] at h
     obtain ⟨⟨a, b⟩, c⟩ := h
     exact ⟨s, reachable_run Reachable.init hr, a, by simpa using b, by simpa using c⟩
+
+/-! #### directory listed AFTER the live set was collected (variant `listFirst = false`) -/
+
+def lateListCfg : Cfg := { recheck := true, listFirst := false, threshold := 2 }
+
+/-- a deleteObsoleteFiles (job 0) has collected pending outputs, active versions' files and rollup
+files; a flush (job 1) allocates table 2 (pending) and creates its file; the cleanup now lists the
+directory, finds table 2 listed and not live, evicts and unlinks it; the flush commits anyway -/
+def lateListActs : List Act :=
+  [.spawn .delObs [], .jstep 0, .jstep 0, .jstep 0, .jstep 0, .spawn .flush [(1, [10])], .jstep 1, .jstep 1] ++
+  List.replicate 4 (.jstep 0) ++ List.replicate 10 (.jstep 1)
+
+theorem late_listing_deletes_unfinished_writer_table :
+    ∃ s, Reachable lateListCfg 0 2 s ∧ (s.job 1).pc = .done ∧ 2 ∈ (s.ver s.cur).nos ∧ 2 ∉ s.disk := by
+  have h : (match run lateListCfg (St.init 0 2) lateListActs with
+      | some s => decide ((s.job 1).pc = .done) && (s.ver s.cur).nos.contains 2 && !(s.disk.contains 2)
+      | none => false) = true := by decide
+  cases hr : run lateListCfg (St.init 0 2) lateListActs with
+  | none => rw [hr] at h; cases h
+  | some s =>
+    rw [hr] at h
+    simp only [Bool.and_eq_true, decide_eq_true_eq, List.contains_eq_mem, Bool.not_eq_true', decide_eq_false_iff_not] at h
+    obtain ⟨⟨a, b⟩, c⟩ := h
+    exact ⟨s, reachable_run Reachable.init hr, a, by simpa using b, by simpa using c⟩
+
+/-- … and at the moment of the unlink the table is the created output of an unfinished writer -/
+theorem late_listing_unlinks_pending_output :
+    ∃ s, Reachable lateListCfg 0 2 s ∧ (s.job 0).pc = .doEvicted ∧ (s.job 0).todoDel = [2] ∧
+      (s.job 1).pc = .ready ∧ 2 ∈ s.pending ∧ 2 ∈ s.disk := by
+  have h : (match run lateListCfg (St.init 0 2) (lateListActs.take 10) with
+      | some s => decide ((s.job 0).pc = .doEvicted) && decide ((s.job 0).todoDel = [2]) && decide ((s.job 1).pc = .ready)
+          && s.pending.contains 2 && s.disk.contains 2
+      | none => false) = true := by decide
+  cases hr : run lateListCfg (St.init 0 2) (lateListActs.take 10) with
+  | none => rw [hr] at h; cases h
+  | some s =>
+    rw [hr] at h
+    simp only [Bool.and_eq_true, decide_eq_true_eq, List.contains_eq_mem] at h
+    obtain ⟨⟨⟨⟨a, b⟩, c⟩, d⟩, e⟩ := h
+    exact ⟨s, reachable_run Reachable.init hr, a, b, c, by simpa using d, by simpa using e⟩
 
 /-! #### Close guarded by load … store instead of a CAS (variant `closeCAS = false`) -/
 
